@@ -11,6 +11,7 @@ import (
 	"os/exec"
 	"os/signal"
 	"strings"
+	"sync"
 	"sync/atomic"
 	"syscall"
 	"time"
@@ -335,7 +336,8 @@ func execOnce(out *scenOut, bits int, hist []int, nexec int, fail, withCallback 
 		modeCmds[i].apply(&spec)
 	}
 	var problems []string
-	problem := func(p string) { problems = append(problems, p) }
+	var problemsMu sync.Mutex
+	problem := func(p string) { problemsMu.Lock(); problems = append(problems, p); problemsMu.Unlock() }
 	inExec := newGate(false)
 	var execRuns int32
 	var killDuring int32
@@ -401,7 +403,19 @@ func execOnce(out *scenOut, bits int, hist []int, nexec int, fail, withCallback 
 			tag := fmt.Sprintf("%d", execIdx)
 			var cb tea.ExecCallback
 			if withCallback {
-				cb = func(err error) tea.Msg { return execDoneMsg{Tag: tag, Err: err} }
+				cb = func(err error) tea.Msg {
+					// the callback carries the COMMAND'S error (the same value: callers compare it with
+					// errors.Is / errors.As), or nil
+					switch {
+					case fail && err == nil:
+						problem("the command failed but the callback received a nil error")
+					case fail && !errors.Is(err, errExecFailed):
+						problem(fmt.Sprintf("the callback did not receive the command's error (errors.Is fails): got %T %q", err, err.Error()))
+					case !fail && err != nil:
+						problem("the command succeeded but the callback received an error: " + err.Error())
+					}
+					return execDoneMsg{Tag: tag, Err: err}
+				}
 			}
 			return tea.Exec(&fakeExec{run: runFn}, cb)
 		case "u8.1":
